@@ -904,3 +904,64 @@ def curve(h):
         if len(c.GetImage().GetValues()) != len(c.GetDomain().GetValues()):
             return {"reproduced": True, "call": "%s(%r)" % (name, arr), "observed": [len(c.GetImage().GetValues()), len(c.GetDomain().GetValues())], "expected": "equal lengths"}
     return {"reproduced": False}
+
+
+@probe("derived_strings")
+def derived_strings(h):
+    """C20: unit / category / quantity-type strings of derived quantities against an independent renderer,
+    and parse-back of the unit string"""
+    import itertools
+    import re
+    from collections import OrderedDict
+    from barril.units import ObtainQuantity
+    from barril.units.unit_database import UnitDatabase
+
+    db = UnitDatabase.GetSingleton()
+
+    def rend(seq, long):
+        sep, div, one = (" * ", " / ", "1 / ") if long else (".", "/", "1/")
+        fac = lambda n, m: n if m == 1 else (("(%s) ** %d" % (n, m)) if long else "%s%d" % (n, m))
+        num = [fac(n, e) for n, e in seq if e > 0]
+        den = [fac(n, -e) for n, e in seq if e < 0]
+        s = sep.join(num)
+        if den:
+            s += (div if num else one) + sep.join(den)
+        return s
+
+    def joined(seq):
+        d = OrderedDict()
+        for k, e in seq:
+            d[k] = d.get(k, 0) + e
+        return list(d.items())
+
+    def parse(s):
+        numden = s.split("/")
+        out = []
+        for k, part in enumerate(numden):
+            if k == 0 and part == "1":
+                continue
+            for tok in part.split("."):
+                m = re.match(r"^(.*?)(\d*)$", tok)
+                out.append((m.group(1), (int(m.group(2)) if m.group(2) else 1) * (1 if k == 0 else -1)))
+        return out
+
+    cats = [("length", "m"), ("time", "s"), ("mass", "kg"), ("depth", "cm"), ("temperature", "K")]
+    cats = [(c, u) for c, u in cats if c in db.categories_to_quantity_types and u in db.unit_to_unit_info]
+    for n in (1, 2, 3):
+        for combo in itertools.permutations(cats, n):
+            for exps in itertools.product((-2, -1, 1, 3), repeat=n):
+                if n == 1 and exps[0] == 1:
+                    continue
+                d = OrderedDict((c, [u, e]) for (c, u), e in zip(combo, exps))
+                q = ObtainQuantity(d)
+                seq = [(c, u, e) for (c, u), e in zip(combo, exps)]
+                exp_cat = rend([(c, e) for c, u, e in seq], True)
+                exp_qt = rend(joined([(db.GetCategoryQuantityType(c), e) for c, u, e in seq]), True)
+                ju = joined([(u, e) for c, u, e in seq])
+                exp_unit = rend(ju, False)
+                got = (q.GetCategory(), q.GetQuantityType(), q.GetUnit())
+                if got != (exp_cat, exp_qt, exp_unit):
+                    return {"reproduced": True, "call": "ObtainQuantity(%r)" % dict(d), "observed": got, "expected": (exp_cat, exp_qt, exp_unit)}
+                if sorted(parse(q.GetUnit())) != sorted((u, e) for u, e in ju if e != 0):
+                    return {"reproduced": True, "call": "parse(%r)" % q.GetUnit(), "observed": parse(q.GetUnit()), "expected": ju}
+    return {"reproduced": False}
